@@ -478,4 +478,87 @@ theorem limits (rate : Dec) (sender : Addr) (prov : Option Addr) (r : Route) (w 
 
 end messages
 
+/-! ## T5 — validation: a validated route uses every pool at most once (and rejecting is an error, not a panic) -/
+
+mutual
+theorem reuseCheck_sound : (r : Route) → ∀ (seen seen' : List Nat), reuseCheck r seen = some seen' →
+    r.poolIds.Nodup ∧ (∀ id ∈ r.poolIds, id ∉ seen) ∧ (∀ id, id ∈ seen' ↔ id ∈ r.poolIds ∨ id ∈ seen)
+  | .pool _ _ id => by
+    intro seen seen' h
+    simp only [reuseCheck] at h
+    by_cases hm : id ∈ seen
+    · simp [hm] at h
+    · simp only [hm, if_false, Option.some.injEq] at h
+      subst h
+      simp [Route.poolIds, hm]
+  | .series _ _ rs => by
+    intro seen seen' h
+    simp only [reuseCheck] at h
+    simpa [Route.poolIds] using reuseCheckL_sound rs seen seen' h
+  | .parallel _ _ rs _ => by
+    intro seen seen' h
+    simp only [reuseCheck] at h
+    simpa [Route.poolIds] using reuseCheckL_sound rs seen seen' h
+  | .nil _ _ => by
+    intro seen seen' h
+    simp only [reuseCheck, Option.some.injEq] at h
+    subst h
+    simp [Route.poolIds]
+theorem reuseCheckL_sound : (rs : List Route) → ∀ (seen seen' : List Nat), reuseCheckL rs seen = some seen' →
+    (poolIdsL rs).Nodup ∧ (∀ id ∈ poolIdsL rs, id ∉ seen) ∧ (∀ id, id ∈ seen' ↔ id ∈ poolIdsL rs ∨ id ∈ seen)
+  | [] => by
+    intro seen seen' h
+    simp only [reuseCheckL, Option.some.injEq] at h
+    subst h
+    simp [poolIdsL]
+  | r :: rs => by
+    intro seen seen' h
+    simp only [reuseCheckL] at h
+    cases h1 : reuseCheck r seen with
+    | none => simp [h1] at h
+    | some s1 =>
+      simp only [h1] at h
+      obtain ⟨n1, d1, m1⟩ := reuseCheck_sound r seen s1 h1
+      obtain ⟨n2, d2, m2⟩ := reuseCheckL_sound rs s1 seen' h
+      refine ⟨?_, ?_, ?_⟩
+      · simp only [poolIdsL]
+        rw [List.nodup_append]
+        refine ⟨n1, n2, ?_⟩
+        intro a ha b hb hab
+        subst hab
+        exact d2 a hb ((m1 a).2 (Or.inl ha))
+      · intro id hid
+        simp only [poolIdsL, List.mem_append] at hid
+        rcases hid with hid | hid
+        · exact d1 id hid
+        · intro hs
+          exact d2 id hid ((m1 id).2 (Or.inr hs))
+      · intro id
+        simp only [poolIdsL, List.mem_append]
+        rw [m2 id, m1 id]
+        constructor
+        · rintro (h | h | h)
+          · exact Or.inl (Or.inr h)
+          · exact Or.inl (Or.inl h)
+          · exact Or.inr h
+        · rintro ((h | h) | h)
+          · exact Or.inr (Or.inl h)
+          · exact Or.inl h
+          · exact Or.inr (Or.inr h)
+end
+
+/-- `Route.Validate` accepts only structurally valid routes in which no pool occurs twice; it is a total Boolean
+    function (the model of the fixed code has no panic path: reuse is an ordinary error) -/
+theorem validate_noReuse (r : Route) (h : validate r = true) : validateRec r = true ∧ r.poolIds.Nodup := by
+  unfold validate at h
+  simp only [Bool.and_eq_true] at h
+  obtain ⟨h1, h2⟩ := h
+  cases hc : reuseCheck r [] with
+  | none => simp [hc] at h2
+  | some s => exact ⟨h1, (reuseCheck_sound r [] s hc).1⟩
+
+/-- non-vacuity: a nested route with two distinct pools validates, the same with one pool used twice does not -/
+example : validate (.series "a" "c" [.pool "a" "b" 0, .series "b" "c" [.pool "b" "c" 1]]) = true := by decide
+example : validate (.series "a" "a" [.pool "a" "b" 0, .pool "b" "a" 0]) = false := by decide
+
 end Sunrise.C03
